@@ -1290,3 +1290,27 @@ Proof.
   split; [reflexivity|]. split; [own|]. intros sh' lo' X Y Z V. repeat wk2; try exact I; try solve [own].
   exact V.
 Qed.
+
+(* ---------- no call deadlocks on the two mutexes (C06, last clause) ---------- *)
+(* whenever a thread is inside a call and not parked in wait / waitFor, some thread can run: either that thread itself,
+   or the thread that owns the mutex it is waiting for (which never waits for a mutex itself: no nested locks) *)
+Theorem no_mutex_deadlock cfg u th :
+  KInv cfg -> nth_error (ths cfg) u = Some th -> status th = TRun -> code th <> [] ->
+  exists v, th_enabled cfg v = true.
+Proof.
+  intros HK Nu St Hc. pose proof HK as (HG & HW & HS).
+  pose proof (Stopped_nth _ _ _ HS Nu) as S. unfold stopped in S. rewrite St in S.
+  destruct (code th) as [|i r] eqn:Ec; [contradiction|].
+  assert (Hen : th_enabled cfg u = enabled (shs cfg) th) by (unfold th_enabled; rewrite Nu; reflexivity).
+  unfold enabled in Hen. rewrite St, Ec in Hen.
+  destruct i as [m|m|x|x|x| |timed|tt f|rr c v v'|timed| | | |rr]; try discriminate S; try (exists u; exact Hen).
+  destruct (owner_of (shs cfg) m) as [o|] eqn:Eo; [|exists u; exact Hen].
+  exists o. apply (holder_enabled cfg o HK). destruct m; cbn [owner_of] in Eo; auto.
+Qed.
+
+Theorem no_mutex_deadlock_every_schedule progs schedule n u th :
+  let cfg := run_sched n (mkCfg sh0 (start_threads progs) schedule false) in
+  stopped_along n (mkCfg sh0 (start_threads progs) schedule false) ->
+  nth_error (ths cfg) u = Some th -> status th = TRun -> code th <> [] ->
+  exists v, th_enabled cfg v = true.
+Proof. intros cfg HS. apply no_mutex_deadlock. apply wake_invariant_every_schedule. exact HS. Qed.
